@@ -269,6 +269,38 @@ def execute(row, seed, version=None, share=False):
     return run, log, wire, closed, version
 
 
+def long_burst_scenario(version, seed, n_packets=60, policy=None):
+    """More packets in one burst than the networking loop reads per round (50), followed by the server's close: the
+    answers queued in the first round can no longer be written (EPIPE) when the second round starts, and the packets
+    still unread at that moment are incoming packets like any other: early listener, reaction, ordinary listener, once
+    each and in order. (Round 11, C13k: a loop that stops dispatching once a write has failed.)"""
+    from minecraft.networking.packets import Packet, clientbound
+    prof = Profile(version)
+    run = Run(policy=policy, seed=seed)
+    holder = {}
+
+    def factory(idx, sess):
+        sc = TracingScript(run, prof, [])
+        sc.steps = [('expect', 2), ('send', prof.login_success(bytes(range(16)), 'verif')),
+                    ('call', lambda s: setattr(s, 'state', 'play')), ('pause', 'go')]
+        sc.steps += [('send', prof.keep_alive(1000 + k)) for k in range(n_packets)] + [('close',)]
+        holder['sc'] = sc
+        return sc
+    run.serve(factory)
+    log = []
+
+    def scenario(run):
+        c = run.make_connection(allowed_versions={version})
+        c.register_packet_listener(lambda p: log.append(('E', p.keep_alive_id)), clientbound.play.KeepAlivePacket, early=True)
+        c.register_packet_listener(lambda p: log.append(('O', p.keep_alive_id)), clientbound.play.KeepAlivePacket)
+        c.connect()
+        run.settle()
+        holder['sc'].resume('go')
+    run.go(scenario)
+    want = [(g, 1000 + k) for k in range(n_packets) for g in ('E', 'O')]
+    return run, log, want
+
+
 def run(chk):
     core.import_minecraft()
     rng = random.Random(chk.seed)
@@ -369,6 +401,19 @@ def run(chk):
         o = dict(row)
         o['log'], o['wire'], o['comp'] = log, wire, run_.comp
         obs.append(o)
+    # ---- a burst longer than one round of the networking loop, then the server's close (the queued answers fail to be written)
+    for v in ([47, 340, 578] if quick else [47, 107, 210, 340, 404, 498, 578]):
+        for sd in range(2 if quick else 6):
+            run_, got, want = long_burst_scenario(v, chk.seed * 7919 + sd, n_packets=60 + 7 * sd)
+            chk.traces += 1
+            chk.case(('long_burst', v, sd))
+            if got != want:
+                j = next((j for j in range(min(len(got), len(want))) if got[j] != want[j]), min(len(got), len(want)))
+                chk.violation('dispatch:play:after-failed-write',
+                              'a burst of %d keep-alives followed by the server\'s close at protocol %d: listener calls differ from '
+                              'early-then-ordinary once per packet at entry %d: real %r, expected %r (%d of %d calls made)'
+                              % (len(want) // 2, v, j, got[j:j + 2], want[j:j + 2], len(got), len(want)),
+                              {'version': v, 'seed': chk.seed * 7919 + sd, 'n': len(want) // 2})
     tf = os.path.join(chk.work, 'dispatch_obs.json')
     with open(tf, 'w') as f:
         json.dump(obs, f)
